@@ -116,7 +116,7 @@ def check_ctor(ctx):
 
 
 # ------------------------------------------------------------------ owner histories
-NOPS = 11
+NOPS = 12
 
 
 def simulate(ops):
@@ -150,6 +150,7 @@ def simulate(ops):
         elif op == 10:
             if live >= 3:
                 return step, hist, own
+        # op 11 (destroy + re-create the sandbox) changes nothing: owners keep their tokens
         hist.append(list(own))
     return None, hist, own
 
